@@ -7,6 +7,7 @@
 #include <map>
 #include <vector>
 
+#include <list>
 #include <sys/mman.h>
 #include <cstdlib>
 
@@ -205,6 +206,42 @@ namespace
         void write(It& it, size_t, long val) { *it = static_cast<int>(val); }
     };
 
+    // differences are only defined forwards (a - b with a not before b): stepping over a bidirectional underlying iterator
+    template <class K> struct forward_diff_only : std::false_type {};
+
+    // xstepping_iterator laid over one of xtl's own random access iterators
+    template <int STEP>
+    struct SteppingOverBitsetKind
+    {
+        static constexpr bool ra = true, lt = true, mut = false, ext = false;
+        using C = xtl::xdynamic_bitset<uint32_t>;
+        using It = xtl::xstepping_iterator<C::const_iterator>;
+        C c; std::vector<bool> m; size_t n = 0;
+        void build(size_t size, Rng& r) { n = size; c.resize(0); c.resize(n * STEP); m.assign(n * STEP, false); for (size_t i = 0; i < n * STEP; ++i) { bool b = r.chance(1, 2); m[i] = b; c.set(i, b); } }
+        It at(size_t p) { return xtl::make_stepping_iterator(C::const_iterator(c, p * STEP), STEP); }
+        It begin() { return at(0); } It end() { return at(n); }
+        long value(const It& it) { return static_cast<bool>(*it) ? 1 : 0; }
+        long index(const It& it, std::ptrdiff_t d) { return static_cast<bool>(it[d]) ? 1 : 0; }
+        long model(size_t p) { return m[p * STEP] ? 1 : 0; }
+        void write(It&, size_t, long) {}
+    };
+    // ... and over a merely bidirectional iterator (std::list): no operator<, differences only forwards
+    template <int STEP>
+    struct SteppingOverListKind
+    {
+        static constexpr bool ra = true, lt = false, mut = true, ext = false;
+        using It = xtl::xstepping_iterator<std::list<int>::iterator>;
+        std::list<int> l; std::vector<int> m; size_t n = 0;
+        void build(size_t size, Rng&) { n = size; l.clear(); m.clear(); for (size_t i = 0; i < n * STEP; ++i) { l.push_back(static_cast<int>(i * 11 + 1)); m.push_back(static_cast<int>(i * 11 + 1)); } }
+        It at(size_t p) { auto it = l.begin(); std::advance(it, static_cast<std::ptrdiff_t>(p * STEP)); return xtl::make_stepping_iterator(it, STEP); }
+        It begin() { return at(0); } It end() { return at(n); }
+        long value(const It& it) { return *it; }
+        long index(const It& it, std::ptrdiff_t d) { return it[d]; }
+        long model(size_t p) { return m[p * STEP]; }
+        void write(It& it, size_t p, long val) { *it = static_cast<int>(val); m[p * STEP] = static_cast<int>(val); }
+    };
+    template <int STEP> struct forward_diff_only<SteppingOverListKind<STEP>> : std::true_type {};
+
     // Kinds whose positions or steps do not fit 32 bits.  Their memory is never written (calloc / PROT_READ zero pages),
     // they skip full traversals, and walker positions are drawn from both ends and the 2^31 boundary.
     template <class K> struct is_huge : std::false_type {};
@@ -277,6 +314,40 @@ namespace
     };
     template <> struct is_huge<HugeSteppingKind> : std::true_type {};
 
+    // a small step but offsets (numbers of steps) beyond 2^31
+    struct HugeOffsetSteppingKind
+    {
+        static constexpr bool ra = true, lt = true, mut = false, ext = false;
+        using It = xtl::xstepping_iterator<const char*>;
+        static constexpr std::ptrdiff_t STEP = 2;
+        const char* mem = nullptr;
+        size_t n = 0, bytes = 0;
+        ~HugeOffsetSteppingKind() { if (mem) munmap(const_cast<char*>(mem), bytes); }
+        void build(size_t, Rng&)
+        {
+            n = (size_t(1) << 31) + 64;
+            if (!mem)
+            {
+                bytes = static_cast<size_t>(STEP) * n + 4096;
+                void* q = mmap(nullptr, bytes, PROT_READ, MAP_PRIVATE | MAP_ANONYMOUS | MAP_NORESERVE, -1, 0);
+                if (q == MAP_FAILED) std::abort();
+                mem = static_cast<const char*>(q);
+            }
+        }
+        It at(size_t p) { return xtl::make_stepping_iterator(mem + static_cast<std::ptrdiff_t>(p) * STEP, STEP); }
+        It begin() { return at(0); } It end() { return at(n); }
+        long value(const It& it) { return *it; }
+        long index(const It& it, std::ptrdiff_t d) { return it[d]; }
+        long model(size_t) { return 0; }
+        void write(It&, size_t, long) {}
+        size_t pick_pos(uint64_t raw) const
+        {
+            size_t off = static_cast<size_t>((raw >> 3) % 64);
+            switch (raw & 3) { case 0: return off; case 1: return n - off; case 2: return (size_t(1) << 31) - off; default: return (size_t(1) << 31) + off; }
+        }
+    };
+    template <> struct is_huge<HugeOffsetSteppingKind> : std::true_type {};
+
     // ---- the walk ------------------------------------------------------------------------------------
     template <class K>
     struct World
@@ -307,6 +378,7 @@ namespace
             if (p < k.n && k.value(x) != k.model(p)) viol("deref", std::string(what) + ": dereferences to " + std::to_string(k.value(x)) + ", element " + std::to_string(p) + " is " + std::to_string(k.model(p)));
             expect_distance(x, p, what, std::integral_constant<bool, K::ra>());
         }
+        static constexpr bool fwd_only = forward_diff_only<K>::value;
         void expect_distance(const It& x, size_t p, const char* what, std::true_type)
         {
             if ((x - k.begin()) != static_cast<std::ptrdiff_t>(p)) viol("diff", std::string(what) + ": it - begin() == " + std::to_string(static_cast<long>(x - k.begin())) + ", expected " + std::to_string(p));
@@ -349,7 +421,8 @@ namespace
             case OP_minus_assign: { It& r = (a -= (-d)); if (&r != &a) viol("ret", "-= does not return *this"); pos[w] = q; ++run.changing; } break;
             case OP_plus:
                 { It r = a + d; expect_at(r, q, "it + n"); expect_at(a, p, "it after it + n");
-                  if ((r - a) != d) viol("diff", "(it + n) - it == " + std::to_string(static_cast<long>(r - a)) + ", n == " + std::to_string(static_cast<long>(d)));
+                  if (!(fwd_only && d < 0)) { if ((r - a) != d) viol("diff", "(it + n) - it == " + std::to_string(static_cast<long>(r - a)) + ", n == " + std::to_string(static_cast<long>(d))); }
+                  else if ((a - r) != -d) viol("diff", "it - (it + n) == " + std::to_string(static_cast<long>(a - r)) + ", n == " + std::to_string(static_cast<long>(d)));
                   It back = r - d; expect_at(back, p, "(it + n) - n"); }
                 break;
             case OP_n_plus: { It r = d + a; expect_at(r, q, "n + it"); if (!(r == a + d)) viol("position", "n + it != it + n"); } break;
@@ -363,7 +436,14 @@ namespace
                 else stats().add("skipped.index_at_end");
                 break;
             case OP_diff:
-                { std::ptrdiff_t got = a - b, want = static_cast<std::ptrdiff_t>(p) - static_cast<std::ptrdiff_t>(pos[1 - w]);
+                { std::ptrdiff_t want = static_cast<std::ptrdiff_t>(p) - static_cast<std::ptrdiff_t>(pos[1 - w]);
+                  if (fwd_only)
+                  {
+                      std::ptrdiff_t got = want >= 0 ? a - b : b - a;
+                      if (got != (want >= 0 ? want : -want)) viol("diff", "the forward difference of positions " + std::to_string(p) + " and " + std::to_string(pos[1 - w]) + " is " + std::to_string(static_cast<long>(got)));
+                      break;
+                  }
+                  std::ptrdiff_t got = a - b;
                   if (got != want) viol("diff", "a - b == " + std::to_string(static_cast<long>(got)) + " for positions " + std::to_string(p) + " and " + std::to_string(pos[1 - w]));
                   if ((b - a) != -want) viol("diff", "b - a is not the negation of a - b"); }
                 break;
@@ -523,6 +603,11 @@ namespace
     IT_CFG(map_keys, MapKind<false>);
     IT_CFG(map_values, MapKind<true>);
     IT_CFG(minimal_with_ext, MiniKind);
+    IT_CFG(stepping_3_over_bitset_iterator, SteppingOverBitsetKind<3>);
+    IT_CFG(stepping_1_over_bitset_iterator, SteppingOverBitsetKind<1>);
+    IT_CFG(stepping_2_over_list_iterator, SteppingOverListKind<2>);
+    IT_CFG(stepping_4_over_list_iterator, SteppingOverListKind<4>);
+    IT_CFG(stepping_offsets_beyond_2e31, HugeOffsetSteppingKind);
     IT_CFG(bitset_view_of_more_than_2e31_bits, HugeBitsetKind);
     IT_CFG(stepping_by_more_than_2e31, HugeSteppingKind);
 }
